@@ -28,6 +28,13 @@ def a_side(r, cls, n):
     return fam.spec, rows.arrs["X"]
 
 
+def prepare(ctx):
+    """Translator tie (see gen_tie.py): SimpleARTMAP.match_reset_func is regenerated from the source and proved
+    to be the negation of the model's veto"""
+    from .gen_tie import gen_prepare
+    gen_prepare(ctx, ["smap_match_reset"], "SimpleARTMAP.match_reset_func")
+
+
 def kw_pre(mode, eps):
     return dict(match_tracking=mode, epsilon=eps)
 
